@@ -5,6 +5,7 @@ CONSTANTS
   ForwardHalfClose = TRUE
   JoinBeforeError = FALSE
   NeedFirstMessage = TRUE
+  InterruptibleRecv = FALSE
   FirstSendEOFFatal = TRUE
-INVARIANTS TranscriptEquivalence BackendSawPrefix BackendSawAll NoPumpOutlivesHandler
+INVARIANTS TranscriptEquivalence BackendSawPrefix BackendSawAll
 PROPERTY Finishes
